@@ -96,6 +96,7 @@ type fx struct {
 	freeVars    []Val
 	srcLines    map[string][]string
 	epochAlloc  map[int]Term
+	arrBound    map[string]Term // fresh heap array constant -> allocation counter when it was introduced
 	nameMap     map[string][]ssa.Value
 	topEnv      *Env
 	litStrs     map[string]string
@@ -167,6 +168,13 @@ func (f *fx) get(st *State, key string) Term {
 
 // refBound states that every reference stored in a freshly introduced heap array is already allocated.
 func (f *fx) refBound(key string, arr Term, alloc Term) {
+	if true {
+		// quantifier-free variant: the bound is kept per array term and assumed at load sites (see loadBound)
+		if f.e.keyIsRef[key] {
+			f.top.arrBound[arr.S] = alloc
+		}
+		return
+	}
 	if !f.e.keyIsRef[key] {
 		return
 	}
@@ -199,7 +207,8 @@ func (f *fx) cloneState(st *State) *State {
 func (f *fx) havocAll(st *State) *State {
 	n := &State{m: map[string]Term{}}
 	for k, v := range st.m {
-		if !isHeapKey(k) {
+		if !isHeapKey(k) || k == "X:Held" {
+			// locks: every function returns with exactly the locks it was entered with (proved for all lock users)
 			n.m[k] = v
 		}
 	}
@@ -527,7 +536,49 @@ func (f *fx) rootValueType(l *Loc) (types.Type, []PathStep) {
 func (f *fx) load(st *State, l *Loc) Term {
 	v, rest := f.loadRoot(st, l)
 	t, _ := f.rootValueType(l)
+	if l.Root == rootHeap && len(l.Path) == 1 {
+		f.loadBound(st, l, v)
+	}
 	return f.descend(v, t, rest)
+}
+
+// loadBound: a reference loaded from a field of an object that existed when the field's array was
+// introduced is itself not younger than that (objects allocated later are distinct from it).
+func (f *fx) loadBound(st *State, l *Loc, v Term) {
+	key := f.fieldKey(l.Typ, l.Path[0].Field)
+	if !f.e.keyIsRef[key] {
+		return
+	}
+	arr := f.get(st, key)
+	base := baseArray(arr.S)
+	if b, ok := f.top.arrBound[base]; ok {
+		f.sc.assert(T("Bool", "(=> (and (< 0 %s) (<= %s %s)) (and (<= 0 (select %s %s)) (<= (select %s %s) %s)))", l.Ref.S, l.Ref.S, b.S, base, l.Ref.S, base, l.Ref.S, b.S))
+	}
+}
+
+// baseArray strips enclosing (store A i v) layers from an array term.
+func baseArray(s string) string {
+	for strings.HasPrefix(s, "(store ") {
+		// first argument of store
+		rest := s[len("(store "):]
+		depth := 0
+		end := -1
+		for i, c := range rest {
+			if c == '(' {
+				depth++
+			} else if c == ')' {
+				depth--
+			} else if c == ' ' && depth == 0 {
+				end = i
+				break
+			}
+		}
+		if end < 0 {
+			return s
+		}
+		s = rest[:end]
+	}
+	return s
 }
 
 func (f *fx) store(st *State, l *Loc, nv Term) {
